@@ -188,14 +188,14 @@ Proof.
   assert (R1 : reachD ex_cfg dx1 None).
   { eapply reachD_step with (r := ROk) (o := OAlloc 0 1000 16 3 0 0 0 0 0 None) (f := no_fault)
       (calls := snd (step ex_cfg dx0 (OAlloc 0 1000 16 3 0 0 0 0 0 None) no_fault));
-      [exact R0|exact I| |vm_compute; reflexivity|discriminate|discriminate]. vm_compute. split; [discriminate|reflexivity]. }
+      [exact R0|apply idle_avoids; exact I| |vm_compute; reflexivity|discriminate|discriminate]. vm_compute. split; [discriminate|reflexivity]. }
   assert (R2 : reachD ex_cfg dx2 None).
   { eapply reachD_step with (r := ROk) (o := OAlloc 1 1000 16 3 0 0 0 0 0 None) (f := no_fault)
       (calls := snd (step ex_cfg dx1 (OAlloc 1 1000 16 3 0 0 0 0 0 None) no_fault));
-      [exact R1|exact I| |vm_compute; reflexivity|discriminate|discriminate]. vm_compute. split; [discriminate|reflexivity]. }
+      [exact R1|apply idle_avoids; exact I| |vm_compute; reflexivity|discriminate|discriminate]. vm_compute. split; [discriminate|reflexivity]. }
   assert (R3 : reachD ex_cfg dx3 None).
   { eapply reachD_step with (r := ROk) (o := OFree 0) (f := no_fault) (calls := snd (step ex_cfg dx2 (OFree 0) no_fault));
-      [exact R2|exact I|exact I|vm_compute; reflexivity|discriminate|discriminate]. }
+      [exact R2|apply idle_avoids; exact I|exact I|vm_compute; reflexivity|discriminate|discriminate]. }
   assert (R4 : reachD ex_cfg dx4 dr4).
   { eapply reachD_dstep with (r := ROk) (o := DBegin 0 None 0 0) (f := no_fault) (calls := snd (fst dd1)) (dr := snd dd1);
       [exact R3|exact I|vm_compute; reflexivity|discriminate|discriminate]. }
@@ -208,3 +208,29 @@ Proof.
   eapply reachD_dstep with (r := ROk) (o := DEnd [0]) (f := no_fault) (calls := snd (fst dd3)) (dr := snd dd3);
     [exact R5|exact I|vm_compute; reflexivity|discriminate|discriminate].
 Qed.
+
+(* ordinary calls while a pass is open: between BeginDefragPass and EndDefragPass the application allocates into
+   another Allocation object (slot 2; the pending move uses slots 1 and 4); the pass is then completed *)
+Definition dx5b := Eval vm_compute in fst (fst (step ex_cfg dx5 (OAlloc 2 500 16 3 0 0 0 0 0 None) no_fault)).
+Definition dd3b := Eval vm_compute in dstep ex_cfg dx5b dr5 (DEnd [0]) no_fault.
+Definition dx6b := Eval vm_compute in fst (fst (fst (fst dd3b))).
+Definition dr6b := Eval vm_compute in snd (fst (fst (fst dd3b))).
+
+Example C02_defrag_open_pass_nonvacuous :
+  VamDefragThm.pending_slots dr5 = [1; 4] /\ reachD ex_cfg dx5b dr5 /\ reachD ex_cfg dx6b dr6b /\
+  map (fun a => (a_allocated a, a_handle a, a_temp a)) (v_tab dx6b) =
+    [(false, 0, false); (true, 0, false); (true, 2016, false); (false, 0, false); (false, 1008, true)].
+Proof.
+  destruct C02_defrag_nonvacuous as (R5 & _).
+  assert (R5b : reachD ex_cfg dx5b dr5).
+  { eapply reachD_step with (r := ROk) (o := OAlloc 2 500 16 3 0 0 0 0 0 None) (f := no_fault)
+      (calls := snd (step ex_cfg dx5 (OAlloc 2 500 16 3 0 0 0 0 0 None) no_fault));
+      [exact R5| | |vm_compute; reflexivity|discriminate|discriminate].
+    - intros s [<-|[]] H. vm_compute in H. destruct H as [H|[H|[]]]; discriminate.
+    - vm_compute. split; [discriminate|reflexivity]. }
+  split; [vm_compute; reflexivity|]. split; [exact R5b|]. split; [|vm_compute; reflexivity].
+  eapply reachD_dstep with (r := ROk) (o := DEnd [0]) (f := no_fault) (calls := snd (fst dd3b)) (dr := snd dd3b);
+    [exact R5b|exact I|vm_compute; reflexivity|discriminate|discriminate].
+Qed.
+Print Assumptions C02_defrag_open_pass_nonvacuous.
+
